@@ -17,6 +17,7 @@ import (
 	"sort"
 	"strings"
 	"sync/atomic"
+	"time"
 
 	"github.com/cloudwego/hertz/pkg/app"
 	"github.com/cloudwego/hertz/pkg/app/middlewares/server/recovery"
@@ -83,10 +84,6 @@ var excluded = map[string]string{
 	"RequestContext.Reset":            "the reset function itself (internal)",
 	"RequestContext.ResetWithoutConn": "the reset function itself (internal)",
 	"RequestContext.SetConn":          "connection-scoped",
-	"RequestContext.SetClientIPFunc":  "connection-scoped (documented to last for the connection)",
-	"RequestContext.SetFormValueFunc": "connection-scoped",
-	"RequestContext.SetBinder":        "connection-scoped",
-	"RequestContext.SetValidator":     "connection-scoped",
 	"RequestContext.SetTraceInfo":     "connection-scoped",
 	"RequestContext.SetEnableTrace":   "connection-scoped",
 	"RequestContext.Next":             "re-enters the handler chain (the harness handler would recurse)",
@@ -161,6 +158,12 @@ func alphabet() (ops []string, skipped []string) {
 			}
 			if ok {
 				ops = append(ops, name)
+				for j := 1; j < mt.NumIn(); j++ {
+					if mt.In(j).Kind() == reflect.Func && mt.In(j).NumOut() == 0 {
+						ops = append(ops, name+"!panic") // the same call with a callback that panics
+						break
+					}
+				}
 			} else {
 				skipped = append(skipped, name)
 			}
@@ -217,6 +220,7 @@ func dump(ctx *app.RequestContext) []string {
 	ctx.Request.Header.Trailer().VisitAll(func(k, v []byte) { out = append(out, fmt.Sprintf("reqtr %q=%q", k, v)) })
 	ctx.Response.Header.Trailer().VisitAll(func(k, v []byte) { out = append(out, fmt.Sprintf("resptr %q=%q", k, v)) })
 	out = append(out, fmt.Sprintf("ctx.Keys=%d Params=%d Errors=%d", len(ctx.Keys), len(ctx.Params), len(ctx.Errors)))
+	out = append(out, fmt.Sprintf("ctx.FormValue(a)=%q FormValue(x)=%q", ctx.FormValue("a"), ctx.FormValue("x")))
 	out = append(out, fmt.Sprintf("header-bytes req=%q", ctx.Request.Header.Header()))
 	out = append(out, fmt.Sprintf("header-bytes resp=%q", noDate(string(ctx.Response.Header.Header()))))
 	return out
@@ -230,13 +234,14 @@ const dirtyReqClose = "POST /dirty/7?q=9&x=dq HTTP/1.1\r\nHost: d\r\nCookie: c=1
 const probeReq = "POST /probe/p?x=1&flag HTTP/1.1\r\nHost: h\r\nX-P: 1\r\nCookie: pc=1; pflag\r\nContent-Type: application/x-www-form-urlencoded\r\nContent-Length: 7\r\n\r\na=1&pfl"
 
 type worker struct {
-	servers map[bool]*srvh.Server
-	cs      *Case
-	probe   []string
-	probed  bool
-	dirtyP  *app.RequestContext
-	probeP  *app.RequestContext
-	effect  bool
+	servers   map[bool]*srvh.Server
+	cs        *Case
+	probe     []string
+	probed    bool
+	probeHung bool
+	dirtyP    *app.RequestContext
+	probeP    *app.RequestContext
+	effect    bool
 }
 
 func (w *worker) server(streaming bool) *srvh.Server {
@@ -272,6 +277,14 @@ func (w *worker) server(streaming bool) *srvh.Server {
 		w.probeP = ctx
 		w.probe = dump(ctx)
 		w.probed = true
+		// a write access: it blocks for ever if a lock of the recycled context is still held (readers do not notice)
+		done := make(chan struct{})
+		go func() { ctx.Set("verif-probe", 1); close(done) }()
+		select {
+		case <-done:
+		case <-time.After(10 * time.Second):
+			w.probeHung = true
+		}
 	})
 	s.Start()
 	return s
@@ -360,7 +373,7 @@ func (w *worker) exec(c *mc.Ctx, cs Case) (status string) {
 		return execAcquire(c, cs)
 	}
 	s := w.server(cs.Streaming)
-	w.cs, w.probe, w.probed, w.dirtyP, w.probeP = &cs, nil, false, nil, nil
+	w.cs, w.probe, w.probed, w.dirtyP, w.probeP, w.probeHung = &cs, nil, false, nil, nil, false
 	switch cs.Placement {
 	case "keepalive":
 		s.Run([][]byte{[]byte(dirtyReq + probeReq)}, netsim.EndEOF, nil)
@@ -369,6 +382,10 @@ func (w *worker) exec(c *mc.Ctx, cs Case) (status string) {
 		s.Run([][]byte{[]byte(probeReq)}, netsim.EndEOF, nil)
 	}
 	w.cs = nil
+	if w.probeHung {
+		c.Violate(fmt.Sprintf("%s|%s|probe-hangs", cs.Placement, strings.Join(cs.Ops, "+")), fmt.Sprintf("after history %v (outcome %s, streaming=%v, placement %s) ctx.Set in the probe request's handler did not return within 10 s: a lock of the recycled context is still held", cs.Ops, cs.Outcome, cs.Streaming, cs.Placement), cs)
+		return "differs"
+	}
 	if !w.probed {
 		return "probe-not-reached"
 	}
@@ -537,7 +554,7 @@ func reducedOps(all []string) []string {
 	want := []string{
 		"RequestContext.SetStatusCode", "RequestContext.Header", "RequestContext.SetCookie", "RequestContext.Set", "RequestContext.Abort", "RequestContext.AbortWithStatus",
 		"RequestContext.Error", "RequestContext.SetBodyString", "RequestContext.SetBodyStream", "RequestContext.Redirect", "RequestContext.SetContentType", "RequestContext.SetConnectionClose",
-		"RequestContext.PostArgs", "RequestContext.MultipartForm", "RequestContext.SetFullPath", "RequestContext.Exile", "RequestContext.Body", "RequestContext.FormValue",
+		"RequestContext.PostArgs", "RequestContext.MultipartForm", "RequestContext.SetFullPath", "RequestContext.Exile", "RequestContext.Body", "RequestContext.FormValue", "RequestContext.ForEachKey!panic", "RequestContext.SetClientIPFunc", "RequestContext.SetFormValueFunc",
 		"Request.SetBody", "Request.SetBodyStream", "Request.SetRequestURI", "Request.SetHost", "Request.SetMethod", "Request.SetCookie", "Request.SetQueryString", "Request.SetMultipartFormData",
 		"Request.SetFormData", "Request.ResetBody", "Request.SetHeader", "Request.SetConnectionClose", "Request.SetMaxKeepBodySize",
 		"Response.SetBody", "Response.SetBodyStream", "Response.SetStatusCode", "Response.SetConnectionClose", "Response.HijackWriter", "Response.SetMaxKeepBodySize", "Response.SetBodyRaw",
